@@ -32,6 +32,10 @@ MARK = (False, True)
 EPS_LISTS = ([0.1], [0.1, 0.1], [0.01, 5.0], 0.25, [1e-6], [1e3], [0.3, 0.7, 0.9])
 
 
+SIZES = (31, 32, 33, 63, 64, 65, 100, 127, 128, 129, 255, 256, 257, 1000, 1024, 1025)
+THRESHOLD_POS = (7, 8, 15, 16, 31, 32, 33, 63, 64, 65, 99, 100, 127, 128, 129, 255, 256, 257, 511, 512, 999, 1000, 1023, 1024)
+
+
 def make_comparator(spec):
     from artap.operators import ParetoDominance, EpsilonDominance
     if spec == "pareto":
@@ -353,6 +357,39 @@ def _shard(shard, col: Collector):
                     for key, msg in check_pair(spec, p, q):
                         col.violation(key + ":m=%d" % m, "pair", msg, {"spec": spec, "p": p, "q": q})
         col.sample({"kind": "long-vector pair", "m": m, "comparator": spec, "p": vs[1], "q": vs[-1]}, 1)
+    elif kind == "hugepairs":
+        # cost vectors far longer than any enumeration reaches (many-objective problems, aggregated cost lists): lengths around
+        # the powers of two and round numbers where fast paths, chunking or typed buffers would switch on
+        _, spec, m = shard
+        cmp_ = make_comparator(spec).compare
+        pos = sorted(set([0, 1, 2, m // 2, m - 2, m - 1] + [q for q in THRESHOLD_POS if q < m]))
+        base = [1.0] * m
+        vs = [tuple(base) + (True,), tuple(base) + (False,)]
+        for i in pos:
+            for a in (0.0, 2.0):
+                v = list(base)
+                v[i] = a
+                vs.append(tuple(v) + (True,))
+                if i != m - 1:
+                    for b in (0.0, 2.0):
+                        w = list(v)
+                        w[m - 1] = b
+                        vs.append(tuple(w) + (True,))
+        vs = list(dict.fromkeys(vs))
+        for p in vs:
+            for q in vs:
+                col.case()
+                got = cmp_(list(p), list(q))
+                same = p == q
+                if (spec != "pareto" and same and got not in (1, 2)) or (not (spec != "pareto" and same) and got != ref_dominance(p, q)):
+                    diff = [i for i in range(m) if p[i] != q[i]]
+                    col.violation("C01:%s:verdict:long-vector:m=%d" % ("pareto" if spec == "pareto" else "epsilon", m), "huge",
+                                  "vectors of length %d differing at positions %r (values %r vs %r, markers %r %r): compare = %r, definition %r" % (
+                                      m, diff, [p[i] for i in diff], [q[i] for i in diff], p[-1], q[-1], got, ref_dominance(p, q)),
+                                  {"spec": spec, "m": m, "dp": [(i, p[i]) for i in range(m) if p[i] != 1.0], "dq": [(i, q[i]) for i in range(m) if q[i] != 1.0], "fp": p[-1], "fq": q[-1]})
+        col.nontrivial(("huge", repr(spec), m))
+        col.count("long_vector_pairs", len(vs) * len(vs))
+        col.sample({"kind": "very long vectors", "m": m, "comparator": spec, "positions": pos[:8] + ["..."]}, 1)
     elif kind == "built":
         _, values, m = shard
         for signs in itertools.product((1, -1), repeat=m):
@@ -379,6 +416,17 @@ def replay(sub, case):
         return check_pair(spec, t(case["p"]), t(case["q"]))
     if sub == "triple":
         return check_triple(spec, t(case["a"]), t(case["b"]), t(case["c"]))
+    if sub == "huge":
+        m = case["m"]
+        p, q = [1.0] * m + [case["fp"]], [1.0] * m + [case["fq"]]
+        for i, v in case["dp"]:
+            p[i] = v
+        for i, v in case["dq"]:
+            q[i] = v
+        got = make_comparator(spec).compare(list(p), list(q))
+        exp = ref_dominance(tuple(p), tuple(q))
+        ok = (got in (1, 2)) if (spec != "pareto" and p == q) else got == exp
+        return [] if ok else [("C01:long-vector", "compare = %r, definition %r" % (got, exp))]
     if sub == "varlen":
         from artap.operators import ParetoDominance, EpsilonDominance
         eps = case["eps"]
@@ -435,6 +483,9 @@ def run(tier, seed):
             shards += [("pairs", spec, A5, 3), ("pairs", spec, B2, 5), ("pairs", spec, B2, 6)]
     shards += [("pairs", "pareto", NEAR, 1), ("pairs", "pareto", NEAR, 2)]
     shards += [("misc",), ("options",)]
+    for m in SIZES:
+        shards.append(("hugepairs", "pareto", m))
+        shards.append(("hugepairs", ("eps", [0.3, 0.7, 0.9]), m))
     shards += [("varlen", e) for e in ("pareto", [0.1], 0.25, [0.1, 0.1], [0.01, 5.0], [0.3, 0.7, 0.9])]
     shards += [("laws", "pareto", 1), ("laws", "pareto", 2), ("laws", "pareto", 3), ("laws", ("eps", [0.1, 0.1]), 2), ("laws", ("eps", 0.25), 3)]
     if tier == "thorough":
